@@ -55,6 +55,8 @@ fn find_timezone(name: &str) -> Result<Tz, String> {
             let prefixes = vec![
                 "Africa",
                 "America",
+                "Antarctica",
+                "Arctic",
                 "Asia",
                 "Atlantic",
                 "Australia",
